@@ -25,6 +25,9 @@ rt.setup(canaries=CANARIES)
 import warnings  # noqa: E402
 import wn  # noqa: E402
 import wn._queries as Q  # noqa: E402
+import wn._add as A  # noqa: E402
+import wn._ili as I  # noqa: E402
+from wn.util import ProgressHandler  # noqa: E402
 from vf import docs  # noqa: E402
 
 TECHNIQUE = 'CrossHair symbolic execution of the real query/navigation API over the SQL model: ' \
@@ -55,6 +58,8 @@ def _lexicons():
     c = docs.lexicon_small(p, 'C', tag='c', ili='i1', ili2='i3', language='de', two=True)
     c['synsets'].append({'id': 'css3', 'ili': 'i2', 'partOfSpeech': 'n', 'meta': None})
     c['synsets'][0]['relations'].append({'target': 'css3', 'relType': 'similar', 'meta': None})
+    # i3 has no synset in A: from A it is reached as an *INFERRED* synset, and left again
+    c['synsets'][1]['relations'] = [{'target': 'css3', 'relType': 'hypernym', 'meta': None}]
     u = docs.lexicon_small(p, 'U', tag='u', ili='i1')
     x = docs.extension_small(p, 'X', base=('A', '1'), tag='x', btag='')
     # the extension also relates two *base* synsets and adds example/count to a base sense
@@ -64,12 +69,40 @@ def _lexicons():
     x['entries'][1]['senses'][0]['relations'] = [{'target': 's1', 'relType': 'also', 'meta': None}]
     pr = docs.lexicon_small(p, 'P', ver='1', tag='p', ili='i2', ili2='i1')
     pr2 = docs.lexicon_small(p, 'P', ver='2', tag='q', ili='i2', ili2='i9')
+    pr2['synsets'].append({'id': 'qss3', 'ili': 'i3', 'partOfSpeech': 'n', 'meta': None,
+                           'relations': [{'target': 'qss2', 'relType': 'hypernym', 'meta': None}]})
     d = docs.lexicon_small(p, 'D', tag='d', ili='i1', ili2='i2',
                            requires=[{'id': 'P', 'version': '1'}])
     return {'A': a, 'B': b, 'C': c, 'U': u, 'X': x, 'P': pr, 'P2': pr2, 'D': d}
 
 
-ORDER = ['A', 'B', 'C', 'U', 'P', 'D', 'X', 'P2']
+ORDER = ['A', 'B', 'C', 'U', 'P', 'D', 'X', 'ili', 'P2']
+
+
+class _FakeFile:
+    def __init__(self, lines):
+        self._lines = lines
+
+    def __enter__(self):
+        return iter(self._lines)
+
+    def __exit__(self, *a):
+        return False
+
+
+class _FakePath:
+    def __init__(self, name):
+        self.name = str(name)
+
+    def expanduser(self):
+        return self
+
+    def open(self, *a, **k):
+        return _FakeFile(['ili\tstatus\tdefinition\n', 'i1\tactive\tone\n', 'i2\tactive\ttwo\n',
+                          'i9\tactive\tnine\n'])
+
+    def __str__(self):
+        return self.name
 
 
 def _build(skip=None):
@@ -77,7 +110,11 @@ def _build(skip=None):
     rt.DB(fresh=skip is None)
     rt.stub_normalizer()
     for k in ORDER:
-        if k != skip:
+        if k == 'ili':
+            # an ILI index loaded between the lexicons: its definitions belong to no lexicon
+            I.Path = _FakePath
+            A._add_ili(_FakePath('ili.tsv'), ProgressHandler(message=''))
+        elif k != skip:
             rt.quiet_add(docs.resource([lexs[k]], '1.1'))
     return lexs
 
@@ -123,12 +160,14 @@ def _battery(w, with_tags):
             if t.id != '*INFERRED*':
                 met.append(_lex(t))
             row.append(['rel', rel.name, t.id, t._ili, t.lexicon().id])
-            for t2 in (t.hypernyms() if t.id != '*INFERRED*' else []):
+            # second step, also from synsets that exist only through the expand lexicons
+            for t2 in t.get_related():
                 if t2.id != '*INFERRED*':
                     met.append(_lex(t2))
+                row.append(['rel2', t2.id, t2._ili, t2.lexicon().id])
         row.append([[x.id for x in path] for path in ss.hypernym_paths()])
         out.append(row)
-    out.append(sorted((i.id or '', i.status) for i in w.ilis()))
+    out.append(sorted((i.id or '', i.status, i.definition() or '') for i in w.ilis()))
     return out, met
 
 
